@@ -2521,6 +2521,15 @@ impl VmGreenThread {
     // GARBAGE COLLECTION
 
     pub fn maybe_gc(&mut self) {
+        #[cfg(feature = "verif")]
+        match crate::verif::gc_decision(self.heap_size) {
+            crate::verif::GcDecision::Default => {}
+            crate::verif::GcDecision::Skip => return,
+            crate::verif::GcDecision::Script(b) => {
+                self.verif_scripted_gc(b);
+                return;
+            }
+        }
         match self.gc_state {
             GcState::Idle => {
                 let threshold = self.last_gc_heap_size * GC_PAUSE_FACTOR;
@@ -2540,8 +2549,35 @@ impl VmGreenThread {
         }
     }
 
+    /// One externally scripted unit of collector work (see `verif::GcMode`).
+    #[cfg(feature = "verif")]
+    fn verif_scripted_gc(&mut self, b: u8) {
+        let budget = match (b >> 1) & 3 {
+            0 => 0usize,
+            1 => 1,
+            2 => 100,
+            _ => usize::MAX,
+        };
+        match self.gc_state {
+            GcState::Idle => {
+                if b & 1 == 1 {
+                    self.start_mark_phase();
+                }
+            }
+            GcState::Marking => {
+                let mut slice = budget;
+                self.process_gray(&mut slice);
+            }
+            GcState::Sweeping { .. } => {
+                self.sweep(budget);
+            }
+        }
+    }
+
     // TODO: this is not very incremental.
     fn start_mark_phase(&mut self) {
+        #[cfg(feature = "verif")]
+        crate::verif::note_cycle_started();
         // mark roots gray
         for v in self.value_stack.iter() {
             Self::mark(v, &mut self.gray_stack, self.gc_visited);
@@ -2670,6 +2706,8 @@ impl VmGreenThread {
             if *index >= self.heap_list.len() {
                 self.gc_state = GcState::Idle;
                 self.last_gc_heap_size = self.heap_size;
+                #[cfg(feature = "verif")]
+                crate::verif::note_cycle_completed();
             }
         }
     }
